@@ -32,6 +32,61 @@ func runC18(c *core.Ctx, r *core.Reporter) {
 	c18bridge(c, r)
 	c18total(c, r)
 	c18frame(c, r)
+	c18rootback(c, r)
+}
+
+// c18rootback: the JSONPath editing operations of ojg return the (possibly new) root: removing from or
+// replacing a root-level array cannot be done in place. A bag operation that drops the result keeps the old root.
+func c18rootback(c *core.Ctx, r *core.Reporter) {
+	const rule = "C18.rootback"
+	r.Rule(rule, "every call of a JSONPath editing operation that returns the edited root (jp.Expr Remove*/Modify* and their Must variants) uses the returned root (stores it back into the bag): when the path addresses the root array itself the edit exists only in the returned value, so get, has, walk and write would otherwise still see the old contents", 2)
+	n := map[string]int{}
+	for _, fn := range c.ModuleFuncs() {
+		if takesTestingT(fn) {
+			continue
+		}
+		for _, b := range fn.Blocks {
+			for _, in := range b.Instrs {
+				call, ok := in.(*ssa.Call)
+				if !ok {
+					continue
+				}
+				g := call.Call.StaticCallee()
+				if g == nil || g.Pkg == nil || g.Pkg.Pkg.Path() != "github.com/ohler55/ojg/jp" || g.Signature.Recv() == nil {
+					continue
+				}
+				name := g.Name()
+				if !strings.Contains(name, "Remove") && !strings.Contains(name, "Modify") {
+					continue
+				}
+				res := g.Signature.Results()
+				if res.Len() == 0 {
+					continue
+				}
+				used := false
+				if refs := call.Referrers(); refs != nil {
+					for _, rf := range *refs {
+						if ex, isEx := rf.(*ssa.Extract); isEx {
+							if ex.Index == 0 && ex.Referrers() != nil && len(*ex.Referrers()) > 0 {
+								used = true
+							}
+							continue
+						}
+						if _, isDbg := rf.(*ssa.DebugRef); isDbg {
+							continue
+						}
+						used = true
+					}
+				}
+				key := fmt.Sprintf("%s|jp.%s", core.SSAName(fn), name)
+				n[key]++
+				if k := n[key]; k > 1 {
+					key = fmt.Sprintf("%s#%d", key, k)
+				}
+				r.Decide(used, rule, key, c.Pos(call.Pos()), fmt.Sprintf("the returned root is used: %v", used))
+			}
+		}
+	}
 }
 
 func kindOf(t types.Type) string {
